@@ -706,27 +706,39 @@ def check_buffer_agreement(chk, facts):
 
 
 def check_carve_alignment(chk, facts):
-    """C12-d, the link its padding bound rests on: slices are carved at align_of::<T>(), nothing coarser"""
+    """C12-d, the link its padding bound rests on: slices are carved at align_of::<T>(), nothing coarser.  Decided on the
+    carver itself (the function of the memory module that splits the buffer and ends in a bytemuck slice cast), whatever
+    form the rounding takes (a helper, inline mask arithmetic, `align_offset`): the operand that says how many bytes to skip
+    is computed from align_of::<T>() and not from size_of::<T>()."""
     from ..guards import expr_mentions_call
-    ROUND = re.compile(r"(align_up|align_offset|next_multiple_of|checked_next_multiple_of|align_to(_mut)?|pod_align_to(_mut)?)(::<.*>)?$")
-    n = 0
-    for b in facts.bodies_in_files("skrifa", [r"skrifa/src/outline/glyf/memory\.rs$"]):
+    ALIGN = ("core::mem::align_of", "core::mem::align_of_val")
+    SIZE = ("core::mem::size_of", "core::mem::size_of_val")
+    SLICE_OPS = re.compile(r"core::slice::<impl \[T\]>::(get|get_mut|split_at|split_at_mut|split_at_checked|split_at_mut_checked)$|"
+                           r"core::ops::index::Index(Mut)?>::index(_mut)?$")
+    carvers = [b for b in facts.all_bodies("skrifa") if b.path.startswith("skrifa::outline::glyf::memory::") and "{closure" not in b.path
+               and any("bytemuck::" in t.callee and "cast_slice" in t.callee for _, t in b.calls())]
+    chk.anchor("C12-d", "the carver of the scratch-memory module (alloc_slice)", carvers)
+    for b in carvers:
+        skips = []
         for bb, t in b.calls():
-            if not ROUND.search(t.callee) or len(t.args) < 2:
+            if not SLICE_OPS.search(t.callee) or len(t.args) < 2:
                 continue
-            al = strip_casts(expr_of(b, t.args[-1]))
-            if al[0] == "param":
-                continue    # the rounding helper itself / a forwarding wrapper: its callers are inspected
-            n += 1
-            only_align = expr_mentions_call(al, ("core::mem::align_of", "core::mem::align_of_val")) and \
-                not expr_mentions_call(al, ("core::mem::size_of", "core::mem::size_of_val"))
-            chk.ob("C12-d", f"{b.path.split('::')[-1]} line {t.line}: carve position rounded to {show(b, al)}", only_align,
-                   key=f"{b.path}|carve-alignment", file=b.file, line=t.line, fn=b.path,
+            e = expr_of(b, t.args[1])
+            if expr_mentions_call(e, ALIGN):
+                skips.append((t, e))
+        delegated = any(re.search(r"(align_to(_mut)?|pod_align_to(_mut)?)(::<.*>)?$", t.callee) for _, t in b.calls())
+        chk.ob("C12-d", f"{b.path.split('::')[-1]}: {len(skips)} slice operand(s) derived from align_of::<T>()"
+                        + (" (alignment delegated to align_to)" if delegated else ""), bool(skips) or delegated,
+               key=f"{b.path}|carve-aligned", file=b.file, line=b.lo, fn=b.path,
+               detail="the carver no longer skips to a position computed from align_of::<T>() before it casts the bytes: the cast "
+                      "then fails (or succeeds) depending on the address of the caller's buffer")
+        for t, e in skips:
+            chk.ob("C12-d", f"{b.path.split('::')[-1]} line {t.line}: bytes skipped before the slice = {show(b, e)[:100]}",
+                   not expr_mentions_call(e, SIZE), key=f"{b.path}|carve-alignment", file=b.file, line=t.line, fn=b.path,
                    detail="the advertised slack covers the padding needed to reach align_of::<T>() for each carved slice (C12-d's "
                           "padding bound is computed from the types' alignments); rounding the position to anything coarser "
                           "(e.g. size_of::<T>(): 8 for a point of two i32, alignment 4) can need more padding than advertised, so a "
                           "caller buffer of exactly the advertised size is rejected depending on its address")
-    chk.floor("C12-d", "position-rounding calls in the memory module", n, 1)
 
 
 def check_scratch_init(chk, facts):
